@@ -32,6 +32,7 @@ func checkC13(c *Ctx) {
 		c13Fanout(c, p, m)
 		c13Reaction(c, p, m)
 		wrapperForwarding(c, p, "R13.5")
+		noLockAcrossDiagnostic(c, p, m)
 	}
 	c.Floor["R13.1"] = 2
 	c.Floor["R13.2"] = 1
